@@ -63,7 +63,15 @@ def run(ctx):
                f"body is the third component of {data}.partition(b'\\r\\n\\r\\n') (first occurrence), passed through no call" if good else f"body of {kind} is {src(b)}: not the untouched tail after the first CRLFCRLF", c)
     rebound = [src(st)[:50] for st, v in assignments_to(f.node, data)]
     ctx.ob("R1", "AGREE", f, f"{data} not rebound", not rebound, "the raw message is partitioned as received" if not rebound else f"the raw message is rewritten before it is split ({rebound}): the body is no longer byte-for-byte")
-    fl = _unpack_of(f, "first_line")
+    # roles: FL = the start line (first component of <head>.partition(b"\r\n")), HD = the header map (the dict that is
+    # passed as headers= to the constructors)
+    FL = None
+    for st in statements(f.node):
+        if isinstance(st, ast.Assign) and isinstance(st.targets[0], ast.Tuple) and len(st.targets[0].elts) == 3 and isinstance(st.value, ast.Call) and isinstance(st.value.func, ast.Attribute) \
+                and st.value.func.attr == "partition" and st.value.args and _c(st.value.args[0]) == b"\r\n":
+            FL = dotted(st.targets[0].elts[0])
+    HD = dotted(kwarg(ctors["HttpResponse"][0], "headers")) or "headers"
+    fl = _unpack_of(f, FL) if FL else []
     good = len(fl) == 1 and fl[0][1] == 0 and isinstance(fl[0][2], ast.Call) and fl[0][2].func.attr == "partition" and _c(fl[0][2].args[0]) == b"\r\n"
     head_src = dotted(fl[0][2].func.value) if good else None
     hup = _unpack_of(f, head_src) if head_src else []
@@ -125,12 +133,12 @@ def run(ctx):
     ctx.ob("R3", "AGREE", f, "HttpRequest(method, uri, params)", bool(m_ok and u_ok and p_ok), f"method = first token={m_ok}; uri = urlparse(<second token>).path={u_ok}; params = dict(parse_qsl(<same>.query))={p_ok}", req)
     for kind, c in (("HttpResponse", resp), ("HttpRequest", req)):
         h = kwarg(c, "headers")
-        ctx.ob("R3", "AGREE", f, f"{kind}(headers=headers)", dotted(h) == "headers", f"headers bound to the parsed header map: {src(h)}", c)
+        ctx.ob("R3", "AGREE", f, f"{kind}(headers=headers)", dotted(h) == HD and HD is not None, f"headers bound to the parsed header map: {src(h)}", c)
     # ---- R4
     rets = cfg.return_stmts()
     def is_prefix_test(t):
         s = src(t)
-        return True if (s.endswith(".startswith(b'HTTP/')") and ("upper()" in s or "lower()" in s) and "first_line" in s) else None
+        return True if (s.endswith(".startswith(b'HTTP/')") and ("upper()" in s or "lower()" in s) and FL is not None and s.startswith(FL + ".")) else None
     for r in rets:
         o = origin(f.node, r.value)
         kind = dotted(o.func) if isinstance(o, ast.Call) else None
@@ -147,7 +155,7 @@ def run(ctx):
         if isinstance(it, ast.Call) and isinstance(it.func, ast.Attribute) and it.func.attr == "split" and _c(it.args[0]) == b"\r\n":
             hv = dotted(lp.target)
             parts = [c for c in ast.walk(lp) if isinstance(c, ast.Call) and isinstance(c.func, ast.Attribute) and c.func.attr == "partition" and dotted(c.func.value) == hv]
-            stores = [s for s in ast.walk(lp) if isinstance(s, ast.Assign) and isinstance(s.targets[0], ast.Subscript) and dotted(s.targets[0].value) == "headers"]
+            stores = [s for s in ast.walk(lp) if isinstance(s, ast.Assign) and isinstance(s.targets[0], ast.Subscript) and dotted(s.targets[0].value) == HD]
             sep_ok = len(parts) == 1 and _c(parts[0].args[0]) == b": "
             st_ok = False
             if len(stores) == 1 and sep_ok:
@@ -160,7 +168,7 @@ def run(ctx):
             ok = sep_ok and st_ok and rest_ok
             detail = f"header lines = rest-of-head.split(b'\\r\\n')={rest_ok}; each partitioned at b': '={sep_ok}; stored key->value in order={st_ok}"
     ctx.ob("R5", "AGREE", f, "header lines", ok, detail)
-    hd = [v for st, v in assignments_to(f.node, "headers")]
+    hd = [v for st, v in assignments_to(f.node, HD)]
     ctx.ob("R5", "AGREE", f, "headers = {}", len(hd) == 1 and isinstance(hd[0], ast.Dict) and not hd[0].keys, "header map starts empty (insertion order preserved)")
     # ---- R6
     effects.check_escape(ctx, "R6", ["c2.parse_raw_http"], {"ValueError"})
